@@ -62,6 +62,8 @@ def gen(rng):
         m = rng.randint(0, 4)
         scen['inner'] = {'elems': list(range(m)) if kind == 'a-range' else [rng.choice(ELEMS) for _ in range(m)],
                          'at': rng.randint(0, max(0, n - 1))}
+        if kind in ('s-agen', 's-agen-loop') and m % 2:
+            scen['inner_where'] = 'source'
     return scen
 
 
@@ -125,6 +127,10 @@ class IterHarness:
                     if pd:
                         await aio.sleep(pd)
                     emit(tag + 'asrc_next', i)
+                    if tag == '' and scen.get('inner_where') == 'source' and scen.get('inner') and i == scen['inner']['at']:
+                        # legacy synchronous code called from inside the async source uses a bridge of its own
+                        box['inner_got'] = list(A.to_sync_iter(agen(scen['inner']['elems'], None, 'in_')))
+                        box['inner_end'] = 'stop'
                     if fail == i:
                         raise err
                     yield x
@@ -225,7 +231,7 @@ class IterHarness:
                         for x in it:
                             box['got'].append(x)
                             emit('got', len(box['got']) - 1)
-                            if inner is not None and len(box['got']) - 1 == inner['at']:
+                            if inner is not None and scen.get('inner_where') != 'source' and len(box['got']) - 1 == inner['at']:
                                 box['inner_got'] = []
                                 for y in A.to_sync_iter(mk(inner['elems'], None, 'in_')):
                                     box['inner_got'].append(y)
